@@ -180,6 +180,10 @@ pub struct Config {
     /// Whether to stop searching when a non-matching line is found after a
     /// matching line.
     stop_on_nonmatch: bool,
+    /// verif hook: initial capacity of the roll buffer (growth policy is
+    /// unchanged: eager without a heap limit).
+    #[cfg(feature = "verif-hooks")]
+    verif_buffer_capacity: Option<usize>,
 }
 
 impl Default for Config {
@@ -198,6 +202,8 @@ impl Default for Config {
             encoding: None,
             bom_sniffing: true,
             stop_on_nonmatch: false,
+            #[cfg(feature = "verif-hooks")]
+            verif_buffer_capacity: None,
         }
     }
 }
@@ -227,6 +233,10 @@ impl Config {
             builder
                 .capacity(capacity)
                 .buffer_alloc(BufferAllocation::Error(additional));
+        }
+        #[cfg(feature = "verif-hooks")]
+        if let Some(capacity) = self.verif_buffer_capacity {
+            builder.capacity(capacity);
         }
         builder.build()
     }
@@ -562,6 +572,18 @@ impl SearcherBuilder {
         stop_on_nonmatch: bool,
     ) -> &mut SearcherBuilder {
         self.config.stop_on_nonmatch = stop_on_nonmatch;
+        self
+    }
+
+    /// verif hook: create the roll buffer used by `search_reader` with the
+    /// given initial capacity instead of 64 KiB. Nothing else changes: without
+    /// a heap limit the buffer still grows eagerly when a line does not fit.
+    #[cfg(feature = "verif-hooks")]
+    pub fn verif_buffer_capacity(
+        &mut self,
+        capacity: usize,
+    ) -> &mut SearcherBuilder {
+        self.config.verif_buffer_capacity = Some(capacity);
         self
     }
 }
